@@ -62,6 +62,7 @@ consults — fails: `C17_conds_witness`) the listed methods are exactly the rout
 import Restful.Lemmas.Allow
 import Restful.Lemmas.AllowHolds
 import Restful.Lemmas.StateShape
+import Restful.Lemmas.TieImpTemplate
 namespace Restful
 namespace Props
 open Str
@@ -757,3 +758,7 @@ example : Spec.c17Holds (Spec.modelObs E0 (wild .jsr) { method := "OPTIONS".toLi
   (C17_holds_jsr_partial E0 (wild .jsr) rfl (by decide) (by decide) _ (by decide) (by decide) _ (by decide) (by decide)).1
 
 end Restful.C17Holds
+
+-- the imperative functions this property's model rests on, tied to their statement-by-statement
+-- translation (tools/goimp, Gen/Imp.lean, regenerated on every run):
+-- also: Restful.TieImp.template_to_regex
